@@ -55,17 +55,35 @@ func condUnder(cond ssa.Value, st stateAssume) (val bool, ok bool) {
 
 // constPart evaluates the state-dependent constant part of an integer expression; calls and loads count 0.
 func constPart(v ssa.Value, st stateAssume, depth int, seen map[ssa.Value]bool) (int64, bool) {
+	return constPartH(v, st, depth, seen, nil)
+}
+
+// constPartH: as constPart, with a hook deciding the constant contributed by a call (ok=false: not handled).
+func constPartH(v ssa.Value, st stateAssume, depth int, seen map[ssa.Value]bool, hook func(ssa.Value) (int64, bool)) (int64, bool) {
 	if depth > 30 {
 		return 0, false
 	}
 	v = canonConv(v)
+	if hook != nil {
+		if k, ok := hook(v); ok {
+			return k, true
+		}
+	}
 	if k, ok := constInt(v); ok {
 		return k, true
 	}
 	switch x := v.(type) {
 	case *ssa.BinOp:
-		a, ok1 := constPart(x.X, st, depth+1, seen)
-		b, ok2 := constPart(x.Y, st, depth+1, seen)
+		if x.Op == token.MUL {
+			// count * per-entry constant: a variable term
+			_, cx := canonConv(x.X).(*ssa.Const)
+			_, cy := canonConv(x.Y).(*ssa.Const)
+			if cx != cy {
+				return 0, true
+			}
+		}
+		a, ok1 := constPartH(x.X, st, depth+1, seen, hook)
+		b, ok2 := constPartH(x.Y, st, depth+1, seen, hook)
 		if !ok1 || !ok2 {
 			return 0, false
 		}
@@ -84,7 +102,7 @@ func constPart(v ssa.Value, st stateAssume, depth int, seen map[ssa.Value]bool) 
 			if nm == "safeAdd2Uint32" || nm == "safeAdd3Uint32" {
 				sum := int64(0)
 				for _, a := range c.Call.Args {
-					k, ok := constPart(a, st, depth+1, seen)
+					k, ok := constPartH(a, st, depth+1, seen, hook)
 					if !ok {
 						return 0, false
 					}
@@ -94,6 +112,8 @@ func constPart(v ssa.Value, st stateAssume, depth int, seen map[ssa.Value]bool) 
 			}
 		}
 		return 0, true
+	case *ssa.Parameter:
+		return 0, true // a caller-supplied amount: variable part
 	case *ssa.Call:
 		return 0, true // Size(), ByteSize(): the variable part
 	case *ssa.UnOp:
@@ -145,7 +165,7 @@ func constPart(v ssa.Value, st stateAssume, depth int, seen map[ssa.Value]bool) 
 			if !feasible {
 				continue
 			}
-			return constPart(e, st, depth+1, seen)
+			return constPartH(e, st, depth+1, seen, hook)
 		}
 		return 0, false
 	}
@@ -155,37 +175,7 @@ func constPart(v ssa.Value, st stateAssume, depth int, seen map[ssa.Value]bool) 
 func ruleL2(p *Prog, r *Report) {
 	const R = "L2"
 	scope, _ := p.decodeScope()
-	// expected prefix per type and state from getPrefixSize()
-	expected := func(tn string, st stateAssume) (int64, bool) {
-		g := p.Method(tn, "getPrefixSize")
-		if g == nil {
-			return 0, false
-		}
-		// walk from entry following the assumption
-		b := g.Blocks[0]
-		for steps := 0; steps < 20; steps++ {
-			last := b.Instrs[len(b.Instrs)-1]
-			switch x := last.(type) {
-			case *ssa.Return:
-				return constPartTop(x.Results[0], st)
-			case *ssa.If:
-				val, rel := condUnder(x.Cond, st)
-				if !rel {
-					return 0, false
-				}
-				if val {
-					b = b.Succs[0]
-				} else {
-					b = b.Succs[1]
-				}
-			case *ssa.Jump:
-				b = b.Succs[0]
-			default:
-				return 0, false
-			}
-		}
-		return 0, false
-	}
+	expected := p.expectedPrefix
 	n := 0
 	for _, f := range sortedFuncs(p, scope) {
 		eachInstr(f, func(in ssa.Instruction) {
@@ -315,3 +305,36 @@ func splitDot(s string) []string {
 	}
 	return append(out, cur)
 }
+
+// expectedPrefix: what getPrefixSize() of the data slab type returns under the state assumption.
+func (p *Prog) expectedPrefix(tn string, st stateAssume) (int64, bool) {
+	g := p.Method(tn, "getPrefixSize")
+	if g == nil {
+		return 0, false
+	}
+	// walk from entry following the assumption
+	b := g.Blocks[0]
+	for steps := 0; steps < 20; steps++ {
+		last := b.Instrs[len(b.Instrs)-1]
+		switch x := last.(type) {
+		case *ssa.Return:
+			return constPartTop(x.Results[0], st)
+		case *ssa.If:
+			val, rel := condUnder(x.Cond, st)
+			if !rel {
+				return 0, false
+			}
+			if val {
+				b = b.Succs[0]
+			} else {
+				b = b.Succs[1]
+			}
+		case *ssa.Jump:
+			b = b.Succs[0]
+		default:
+			return 0, false
+		}
+	}
+	return 0, false
+}
+
